@@ -697,6 +697,20 @@ impl ExecutionState {
         Self::with(|state| state.has_cleaned_up = true);
 
         Self::with(|state| state.in_cleanup = false);
+
+        #[cfg(feature = "verif")]
+        {
+            let labels = LABELS.with(|cell| cell.borrow().len());
+            let tags = TASK_ID_TO_TAGS.with(|cell| cell.borrow().len());
+            let storage_slots_left = Self::with(|state| state.storage.verif_live_slots());
+            let pooled_continuations = crate::runtime::thread::continuation::verif_pool_len();
+            crate::verif::emit(|| crate::verif::Event::ExecutionEnd {
+                labels,
+                tags,
+                storage_slots_left,
+                pooled_continuations,
+            });
+        }
     }
 
     /// Determine whether the execution has finished.
@@ -741,6 +755,10 @@ impl ExecutionState {
     pub fn request_yield() {
         Self::with(|state| {
             state.has_yielded = true;
+            #[cfg(feature = "verif")]
+            if let Some(tid) = state.current_task.id() {
+                crate::verif::emit(|| crate::verif::Event::YieldRequest(tid));
+            }
         });
     }
 
@@ -901,6 +919,8 @@ impl ExecutionState {
         match self.config.max_steps {
             MaxSteps::FailAfter(max_steps) => {
                 if self.is_step_bound_exceeded(max_steps) {
+                    #[cfg(feature = "verif")]
+                    self.verif_decision(false, false, crate::verif::DecisionView::StepBoundExceeded);
                     return Err(StepError::StepBoundExceeded);
                 }
             }
@@ -908,6 +928,8 @@ impl ExecutionState {
                 if self.is_step_bound_exceeded(max_steps) {
                     // TODO: We have to set `Stopped` and return `Ok` here, else assertions will fail. This should probably be cleaned up.
                     self.next_task = ScheduledTask::Stopped;
+                    #[cfg(feature = "verif")]
+                    self.verif_decision(false, false, crate::verif::DecisionView::Stopped);
                     return Ok(());
                 }
             }
@@ -956,6 +978,8 @@ impl ExecutionState {
         // run some detached task to give them a chance to unblock some unfinished attached task.
         if !any_runnable || (!unfinished_attached && all_runnable_detached) {
             self.next_task = ScheduledTask::Finished;
+            #[cfg(feature = "verif")]
+            self.verif_decision(false, false, crate::verif::DecisionView::Finished);
             return Ok(());
         }
 
@@ -975,6 +999,16 @@ impl ExecutionState {
             .next_task(task_refs, self.current_task.id(), is_yielding)
             .map(ScheduledTask::Some)
             .unwrap_or(ScheduledTask::Stopped);
+
+        #[cfg(feature = "verif")]
+        self.verif_decision(
+            true,
+            is_yielding,
+            match self.next_task {
+                ScheduledTask::Some(tid) => crate::verif::DecisionView::Task(tid),
+                _ => crate::verif::DecisionView::Stopped,
+            },
+        );
 
         // Tracing this `in_scope` is purely a matter of taste. We do it because
         // 1) It is an action taken by the scheduler, and should thus be traced under the scheduler's span
@@ -1008,6 +1042,46 @@ impl ExecutionState {
         self.runnable_tasks.clear();
 
         Ok(())
+    }
+
+    /// Report a scheduling verdict to the `verif` observer, if one is installed.
+    #[cfg(feature = "verif")]
+    fn verif_decision(&self, consulted_scheduler: bool, is_yielding: bool, decision: crate::verif::DecisionView) {
+        use crate::runtime::task::TaskState;
+        use crate::verif::{TaskStateView, TaskView};
+        if !crate::verif::observing() {
+            return;
+        }
+        let tasks = self
+            .tasks
+            .iter()
+            .map(|t| TaskView {
+                id: t.id,
+                state: match t.state {
+                    TaskState::Runnable => TaskStateView::Runnable,
+                    TaskState::Blocked { allow_spurious_wakeups } => TaskStateView::Blocked { allow_spurious_wakeups },
+                    TaskState::Sleeping => TaskStateView::Sleeping,
+                    TaskState::Finished => TaskStateView::Finished,
+                },
+                detached: t.detached,
+            })
+            .collect::<Vec<_>>();
+        // SAFETY: same argument as in `schedule`: the pointers were created from references into
+        // `self.tasks` earlier in the same call and `self.tasks` has not been touched since.
+        let offered = self.runnable_tasks.iter().map(|t| unsafe { (**t).id }).collect::<Vec<_>>();
+        let current = self.current_task.id();
+        let schedule_len = CurrentSchedule::len();
+        let steps_reset_at = self.steps_reset_at;
+        crate::verif::emit(|| crate::verif::Event::Decision {
+            tasks,
+            offered,
+            consulted_scheduler,
+            current,
+            is_yielding,
+            decision,
+            schedule_len,
+            steps_reset_at,
+        });
     }
 
     /// Set the next task as the current task
